@@ -53,8 +53,9 @@ GUARDS = [
     ("conv3_forward_shape", "conv", "LogicConv3d", "forward",
      "assert x.ndim == 5 and tuple(x.shape[1:]) == (self.channels, *self.in_dim)"),
     ("groupsum_divisible", "groupsum", "GroupSum", "forward", "assert x.shape[-1] % self.k == 0"),
-    ("compiler_cc", "compiled", "CompiledLogicNet", "__init__", "assert cpu_compiler in ['clang', 'gcc'], cpu_compiler"),
-    ("compiler_bits", "compiled", "CompiledLogicNet", "__init__", "assert num_bits in [8, 16, 32, 64]"),
+    # "top": the guard must be an unconditional top-level statement of the function (load() builds its instance with model=None)
+    ("compiler_cc", "compiled", "CompiledLogicNet", "__init__", "assert cpu_compiler in ['clang', 'gcc'], cpu_compiler", "top"),
+    ("compiler_bits", "compiled", "CompiledLogicNet", "__init__", "assert num_bits in [8, 16, 32, 64]", "top"),
     ("compiler_no_layers", "compiled", "CompiledLogicNet", "_parse_model",
      "if not self.conv_layers and (not self.linear_layers):\n        raise ValueError"),
 ]
@@ -79,9 +80,14 @@ def gen_guards():
     mods = {k: ast.parse(read_src(v)) for k, v in FILES.items()}
     out = HEADER + "From Coq Require Import String List Bool.\nImport ListNotations.\nLocal Open Scope string_scope.\n\n"
     rows = []
-    for name, f, cls, fn, snip in GUARDS:
+    for name, f, cls, fn, snip, *flags in GUARDS:
         node = _find(mods[f], cls, fn)
-        ok = node is not None and _flat(snip) in _flat(ast.unparse(node))
+        if node is not None and "top" in flags:
+            text = "\n".join(ast.unparse(st) for st in node.body
+                             if not isinstance(st, (ast.If, ast.For, ast.While, ast.With, ast.Try, ast.FunctionDef)))
+        else:
+            text = ast.unparse(node) if node is not None else ""
+        ok = node is not None and _flat(snip) in _flat(text)
         rows.append(f'("{name}", {"true" if ok else "false"})')
     out += "Definition guards : list (string * bool) :=\n  [" + ";\n   ".join(rows) + "].\n"
     # default of LogicConv3d padding
